@@ -26,6 +26,7 @@ pub const RESERVED_NAMES: &[&str] = &[
     "and",
     "as_type",
     "auto",
+    "bool",
     "break",
     "case",
     "catch",
